@@ -34,6 +34,7 @@ ASSUMPTIONS = [
     "dz is at least 0.75 pixel (the statement starts at one pixel)",
     "3-D meshes only: two-dimensional data have no extent along the normal, so a slab thickness has no defined meaning for them",
     "pixels whose column contains a sample in the face band are counted as ambiguous and not judged",
+    "when the layers of one call reduce differently, which pixels are masked is not part of the statement: shown values are judged, masked or NaN-expected pixels are skipped",
 ]
 REAL_STUB = c03.REAL_STUB
 MODNAME, KATTR = c03.MODNAME, c03.KATTR
